@@ -574,7 +574,8 @@ fn step_create_bid(c: &StepCtx, cfg: &Cfg, body: &Value, sender: &str, funds: &[
         viol(out, "C01", "per-order", "bid escrow differs from quote + fee recorded", format!("contract delta {:?} expected {:?}", cdelta, expd));
     }
     // C09: fee demanded at entry = rate * total, half up
-    if let Some(due) = bid_fee_due(cfg, qsize) {
+    let entry_judged = cfg.bid_fee.as_ref().map_or(true, |f| parse_dec(&f.rate).map_or(false, |r| r.form == Form::Plain && r.mant_times(qsize) < domain_limit()));
+    if let Some(due) = bid_fee_due(cfg, qsize).filter(|_| entry_judged) {
         let got = fee.as_ref().map_or(0, |f| f.1);
         let rate = cfg.bid_fee.as_ref().map_or("none".to_string(), |f| f.rate.clone());
         let tie = cfg.bid_fee.as_ref().and_then(|f| parse_dec(&f.rate)).map_or(false, |r| {
@@ -675,6 +676,22 @@ fn step_match(c: &StepCtx, cfg: &Cfg, body: &Value, sender: &str, funds: &[(Stri
         Some(x) => x,
         None => return, // ineligible and accepted: already reported by C03; amounts cannot be judged
     };
+    if !ctx.amounts_exact {
+        // stated bound of the claim (DESIGN section 4): beyond 2^95 rust_decimal rescales products
+        st.count("C02", "matches_not_judged_outside_exact_decimal_domain");
+        // the per-order ledger (C01) still has to be kept
+        if denoms_disjoint(cfg) {
+            let mut rest = cdelta.clone();
+            let ea = h.escrow.entry(('a', ask_id.clone())).or_default();
+            ea.main += rest.remove(&a.base).unwrap_or(0);
+            if let AskClass::Ready { cb_denom, .. } = &a.class {
+                ea.approver += rest.remove(cb_denom).unwrap_or(0);
+            }
+            let eb = h.escrow.entry(('b', bid_id.clone())).or_default();
+            eb.main += rest.remove(&b.quote_denom).unwrap_or(0);
+        }
+        return;
+    }
     // every payout is drawn from the contract
     for x in xfers {
         if let Xfer::Marker { from, .. } = x {
